@@ -14,7 +14,7 @@ open Modbus Modbus.Model
 
 def tokEv (s : String) : Option Ev :=
   if s == "t" then some .timeout
-  else if s == "c" then some .cancel
+  else if s == "c" || s == "cd" then some .cancel      -- cd: the caller's context ends by its deadline
   else if s.startsWith "d:" then (unhex (s.drop 2).toString).map .data
   else if s.startsWith "e:" then (unhex (s.drop 2).toString).map .eof
   else if s.startsWith "x:" then (unhex (s.drop 2).toString).map .ioerr
@@ -48,11 +48,12 @@ def parseDoOp (ts : List String) : Option DoOp :=
     let evs := if script == "-" then [] else script.splitOn ";"
     let writeFails := evs.head? == some "w"
     let evs := if writeFails then evs.drop 1 else evs
-    let preCancel := evs.head? == some "pc"
+    let preCancel := evs.head? == some "pc" || evs.head? == some "pcd"
     let evs := if preCancel then evs.drop 1 else evs
     let script ← evs.mapM tokEv
-    let nc := req.startsWith "nc:"
-    let reqS := if nc then (req.drop 3).toString else req
+    -- nc: never connected; ncf: Connect was tried and failed (the dial function returned a connection AND an error)
+    let nc := req.startsWith "nc:" || req.startsWith "ncf:"
+    let reqS := if req.startsWith "ncf:" then (req.drop 4).toString else if nc then (req.drop 3).toString else req
     let (tid, args) ← if reqS == "nil" then some ((0 : UInt16), none) else (tokReq reqS).map fun (t, a) => (t, some a)
     pure { kind, hooks := ← tokBool hooks, flusher, nilReq := reqS == "nil", notConnected := nc, tid, args,
            reply := ← unhex reply, writeFails, preCancel, script }
